@@ -21,6 +21,7 @@ CN_KEYS = ['classname', 'classname', 'Classname', 'CLASSNAME']
 TN_KEYS = ['targetname', 'targetname', 'TargetName', 'TARGETNAME']
 OTHER_KEYS = ['origin', 'Origin', 'x']
 QUERIES = ['a', 'A', 'ab', 'AB', 'a*', 'A*', '*', '', 'a1', 'worldspawn', 'WORLDSPAWN', 'ab*', 'info_null', 'b']
+QUERIES_SH = ['a', 'A*', 'ab', 'worldspawn', '']
 MAX_OBJS = 6
 MODEL_DIGESTS: dict = {'CopySet.__iter__': '18a885efeefc', '_remove_copyset': '590e345663d7', 'VMF.search': '8cbe23d1283f',
                        'Entity.make_unique': '11a000401c4a'}
@@ -146,7 +147,13 @@ def gen_ops(rng: random.Random, n: int, names=NAMES, allow_iter: bool = True) ->
             e = pick_ent(m)
             if e is not None:
                 ops.append(('uniq', m, e, rng.choice(names)))
-        elif r < 0.955:
+        elif r < 0.948:
+            which = rng.choice(['class', 'target'])
+            key = rng.choice(names)
+            if rng.random() < 0.6:
+                key = key.casefold()
+            ops.append(('probe', m, which, None if which == 'target' and key == '' else key))
+        elif r < 0.958:
             ops.append(('export', m))
         elif r < 0.975 and allow_iter:
             which = rng.choice(['class', 'target', 'search'])
@@ -228,7 +235,7 @@ def valid(ops) -> bool:
         elif k == 'adds':
             if any(e >= nobj[m] for e in op[2]):
                 return False
-        elif k in ('export', 'iter'):
+        elif k in ('export', 'iter', 'probe'):
             pass
         elif op[2] >= nobj[m]:
             return False
@@ -253,11 +260,18 @@ CORPUS = [
     [('create', 0, 'a', []), ('add', 0, 1), ('rem', 0, 1, False)],
     [('create', 0, 'a', [('targetname', 'Ab')]), ('create', 0, 'a', [('targetname', 'Ab')]), ('uniq', 0, 2, '')],
     [('create', 0, 'a', []), ('create', 0, 'a', []), ('iter', 0, 'class', 'a', ('set', 'classname', 'A'))],
+    # round 2: stored spelling differs from the caller's; a name equal to another entity's class; reads that
+    # leave empty sets behind (folded and un-folded keys) before searching
+    [('create', 0, 'a', [('TargetName', 'Ab')]), ('set', 0, 1, 'targetname', 'a1')],
+    [('new', 0, [('ClassName', 'Ab')]), ('add', 0, 1), ('set', 0, 1, 'classname', 'a')],
+    [('create', 0, 'a', []), ('create', 0, 'a1', [('targetname', 'A')])],
+    [('create', 0, 'a', []), ('probe', 0, 'target', 'a')],
+    [('create', 0, 'ab', []), ('probe', 0, 'target', 'Ab'), ('probe', 0, 'class', 'AB'), ('probe', 0, 'target', None)],
 ]
 
 
 def search(ck: Ck) -> None:
-    n = 30000 if ck.thorough else ck.budget(1500, 10000)
+    n = 30000 if ck.thorough else ck.budget(1500, 4000)
     found: dict[str, tuple] = {}
     for i in range(n):
         if i < len(CORPUS):
@@ -383,6 +397,11 @@ def coq_wop(tab, op) -> str:
         o = f'MakeUnique {op[2]} {_strtab(tab, op[3])}'
     elif k == 'export':
         o = f'Export {_strtab(tab, "0")}'
+    elif k == 'probe':
+        if op[2] == 'class':
+            o = f'ProbeClass {_strtab(tab, op[3])}'
+        else:
+            o = 'ProbeTarget ' + ('None' if op[3] is None else f'(Some {_strtab(tab, op[3])})')
     else:
         raise AssertionError(op)
     return f'WOp {m} ({o})'
@@ -420,11 +439,18 @@ def run_case(ops) -> tuple[list, list]:
     return steps, queries
 
 
-def corr(ck: Ck, escalate: bool = False) -> None:
-    n = 2500 if ck.thorough else (1200 if (escalate or ck.tie_broken) else 240)
+PRE_SHAPES = r"""
+Definition sq2 (s : list nat) (q : str) (st : mstate) : bool :=
+  eqb_ln (sorted_elems (search_sh ascii_fold gen_search_shape q st).1) s.
+"""
+
+
+def corr(ck: Ck, escalate: bool = False, shapes: bool = False) -> None:
+    # quick tier with a broken tie: a larger random budget, but the exhaustive short histories stay in thorough
+    n = 2500 if ck.thorough else (600 if (escalate or ck.tie_broken) else 240)
     cases = []
     seqs: list = list(CORPUS)
-    if ck.thorough or ck.tie_broken or escalate:
+    if ck.thorough:
         seqs += list(exhaustive_short())
     while len(seqs) < n:
         seqs.append(gen_ops(ck.rng, ck.rng.choice([3, 6, 12, 25, 40])))
@@ -445,7 +471,7 @@ def corr(ck: Ck, escalate: bool = False) -> None:
     ck.sample({'correspondence_ops': cases[len(CORPUS)][0][:6], 'impl_observation_after_last_step': cases[len(CORPUS)][1][-1][3] if cases[len(CORPUS)][1] else None})
     bad: list[tuple[int, Any]] = []
     bad_q: list[tuple[int, Any]] = []
-    B = 120
+    B = min(120, max(40, -(-len(cases) // 6)))     # quick: 6 parallel batches
     from concurrent.futures import ThreadPoolExecutor
     from harness.common import parse_coq_nested
 
@@ -459,11 +485,15 @@ def corr(ck: Ck, escalate: bool = False) -> None:
             flat_ops = '[' + '; '.join(coq_wop(tab, f) for f, _m, _e, _o in steps) + ']'
             qs = ' && '.join(f'match w !! {m} with Some st => sq {_c_nats(r)} {_strtab(tab, q)} st | None => false end'
                              for m, q, r in queries)
+            if shapes:   # VMF.search as written (generated program over the defaultdict semantics), 5 of the queries
+                qs += ''.join(f' && match w !! {m} with Some st => sq2 {_c_nats(r)} {_strtab(tab, q)} st | None => false end'
+                              for m, q, r in queries if q in QUERIES_SH)
             qlits.append(f'(let w := wrun ascii_fold {flat_ops} w2 in {qs})')
-        pre = PRE + ''.join(f'Definition {name} : str := {_coq_str(s)}.\n' for s, name in tab.items())
+        pre = PRE + (PRE_SHAPES if shapes else '') + ''.join(f'Definition {name} : str := {_coq_str(s)}.\n' for s, name in tab.items())
         exprs = ['[' + '; '.join(f'first_bad 0 {l} w2' for l in lits) + ']',
                  '[' + '; '.join(qlits) + ']']
-        return lo, ck.coq_eval(IMPORTS, exprs, name=f'index{lo}', preamble=pre, timeout=900)
+        imports = IMPORTS + (['SV.SM.IndexShapes', 'SV.Gen.IndexShapes_gen'] if shapes else [])
+        return lo, ck.coq_eval(imports, exprs, name=f'index{lo}', preamble=pre, timeout=900)
 
     with ThreadPoolExecutor(max_workers=6) as ex:
         results = list(ex.map(batch, range(0, len(cases), B)))
@@ -484,7 +514,9 @@ def corr(ck: Ck, escalate: bool = False) -> None:
                   f'{len(cases)} histories / {sum(len(c[1]) for c in cases)} steps: after every step error code, entity list, '
                   f'spawn, all key lists, by_class and by_target of model (vm_compute) vs implementation: {len(bad)} disagreements')
     ck.obligation('correspondence:search', not bad_q,
-                  f'{len(cases)} final worlds x {len(QUERIES)} queries per map, model search vs VMF.search: {len(bad_q)} disagreements')
+                  f'{len(cases)} final worlds x {len(QUERIES)} queries per map, model search'
+                  + (f' and, for {len(QUERIES_SH)} of them, search_sh gen_search_shape (VMF.search as written)' if shapes else '')
+                  + f' vs VMF.search: {len(bad_q)} disagreements')
     if bad:
         i, step = min(bad, key=lambda b: len(cases[b[0]][1]))
         ck.tie_broken.append('correspondence index operations (SM/IndexModel.v wstep vs real VMF/Entity objects)')
@@ -552,6 +584,14 @@ def shape_obligations(ck: Ck) -> None:
 
 # ------------------------------------------------------------------------------------------------ main
 def run(ck: Ck) -> None:
+    import time
+    t0 = time.time()
+    timing = ck.extra.setdefault('timing_s', {})
+
+    def lap(name: str) -> None:
+        nonlocal t0
+        timing[name] = round(time.time() - t0, 1)
+        t0 = time.time()
     ck.rule = ('histories over 2-3 real VMF objects with at most 6 entities each; names drawn from '
                "{a, A, Ab, aB, '', a1, worldspawn} (oracle stream also ß/SS/ss/İ), keys from classname/targetname in "
                'three spellings plus two other keys; operations create/new/copy/add/adds/remove/set/del/tuple-del/pop/'
@@ -567,10 +607,13 @@ def run(ck: Ck) -> None:
     side = ck.extra.get('translated', {}).get('IndexSites_gen', {})
     ok_s = ck.translate('IndexShapes_gen', c07_index_shapes.translate)
     built = ck.build(['Props/C07.vo'] + (['SM/IndexCensus.vo'] if ok_t else []) + (['Gen/IndexShapes_gen.vo'] if ok_s else []))
+    lap('translate+build')
     if built:
         ck.theorems('Props/C07.v')
+        lap('print_assumptions')
         if ok_s:
             shape_obligations(ck)
+            lap('shape_obligations')
         if ok_t:
             obs = {
                 'all_key_writers_modelled': 'all_key_writers_modelled',
@@ -594,8 +637,11 @@ def run(ck: Ck) -> None:
         if side.get('digests') and side['digests'] != MODEL_DIGESTS:
             ck.notes.append(f'hand-modelled functions changed since the model was written ({side["digests"]}): thorough correspondence budget')
             ck.extra['digest_escalation'] = True
-        corr(ck, escalate=bool(ck.extra.get('digest_escalation')))
+        lap('census_obligations')
+        corr(ck, escalate=bool(ck.extra.get('digest_escalation')), shapes=ok_s)
+        lap('correspondence')
     search(ck)
+    lap('oracle_search')
     keys = {v['key'] for v in ck.violations}
     if keys:
         ck.explain('correspondence:')
